@@ -27,7 +27,7 @@ def runToks : PState → Nat → List Obj → List CSObj → Res (List Tok)
 
 /-- one call of the tokenizer as the loop makes it, consuming at least one byte -/
 def LexStep (d : Nat) (x : Bytes) (t : CSObj) (r : Bytes) : Prop :=
-  skipWs x ≠ [] ∧ r.length < x.length ∧
+  skipWs x ≠ [] ∧ r.length < (skipWs x).length ∧
     csObjP d (2 * (skipWs x).length + 2) (skipWs x) = .ok (t, r)
 
 inductive LexAll (d : Nat) : Bytes → List CSObj → Prop where
@@ -102,7 +102,11 @@ theorem extractLoop_of_lex (d : Nat) : ∀ (x : Bytes) (toks : List CSObj), LexA
       | cons a as => simp [csObjP, skipWs, skipWsAux]
   | @cons x t r ts hs _ ih =>
     intro fuel st c args hf
-    obtain ⟨hne, hlen, hcs⟩ := hs
+    obtain ⟨hne, hlen', hcs⟩ := hs
+    have hlen : r.length < x.length := by
+      have := skipWsAux_length_le false x
+      simp only [skipWs] at hlen'
+      omega
     cases fuel with
     | zero => omega
     | succ f =>
